@@ -231,7 +231,12 @@ func (m *MainLoop) sendUpdateMessageNonBlocking(ctx context.Context, blockWithPr
 }
 
 // Used by orbs-network-go
-func GetMemberIdsFromBlockProof(blockProofBytes []byte) ([]primitives.MemberId, error) {
+func GetMemberIdsFromBlockProof(blockProofBytes []byte) (memberIds []primitives.MemberId, err error) {
+	defer func() { // malformed proof bytes make the lazily parsing accessors panic
+		if r := recover(); r != nil {
+			memberIds, err = nil, errors.Errorf("GetMemberIdsFromBlockProof: malformed blockProof: %v", r)
+		}
+	}()
 	if blockProofBytes == nil || len(blockProofBytes) == 0 {
 		return nil, errors.Errorf("GetMemberIdsFromBlockProof: nil blockProof - cannot deduce members locally")
 	}
